@@ -267,9 +267,29 @@ class C16(Prop):
                     evs += [["adv", "1"], ["run"]]
                 out.append(Case("time", rng.choice(["local", "threads"]), [("pipe", [pipe])], evs,
                                 {"kind": "nested-interval", "period": p}))
+        # a cold producer in front of group_by (suite `groupby`, event `iter k`): once the stream of groups has been ended
+        # (`take n` of the groups) the producer must not be pulled any more — whether or not every announced group was
+        # subscribed (keys in `skip` are announced and never subscribed), whether or not its subscribers are still there
+        keysets = {"mod2": [0, 1], "mod3": [0, 1, 2], "div2": None, "id": None, "const0": [0]}
+        for key, ks in keysets.items():
+            for n in (0, 1, 2, 3):
+                for k in (0, 1, 4, 9):
+                    skips = [[]]
+                    if ks:
+                        skips += [[str(x)] for x in ks] + [[str(x) for x in ks]]
+                    else:
+                        skips += [["0"], ["1"], ["0", "2"]]
+                    for sk in skips:
+                        fields = [("key", [key]), ("otake", [str(n)])]
+                        if sk:
+                            fields.append(("skip", sk))
+                        out.append(Case("groupby", ("local", "threads")[(n + k + len(sk)) % 2], fields, [["iter", str(k)]],
+                                        {"kind": "groupby-iter"}))
         return out
 
     def compare_from(self, case):
+        if case.suite == "groupby":
+            return 0
         if self._is_nested(case):
             return len(case.events)
         return 0
@@ -388,7 +408,40 @@ class C16(Prop):
                     "detail": f"{pulls} items pulled from the stream, the observer was finished after {mp}"}
         return None
 
+    def groupby_oracle(self, case, lines):
+        b = lines.get(0) or ""
+        if b == "PANIC" or "pulls=" not in b:
+            return {"kind": "panic" if b == "PANIC" else "missing-line", "event": 0, "detail": b}
+        pulls = int(b.rsplit("pulls=", 1)[1])
+        k = int(case.events[0][1])
+        n = int(case.field("otake")[0])
+        key = case.field("key")[0]
+
+        def keyf(i):
+            if key.startswith("mod"):
+                return i % int(key[3:])
+            if key.startswith("div"):
+                return i // int(key[3:])
+            if key.startswith("const"):
+                return int(key[5:])
+            return i
+        # take(n) of the groups completes with the n-th NEW key (n > 0); from then on GroupByObserver is finished
+        seen, want = set(), 0
+        for i in range(k):
+            if n > 0 and len(seen) >= n:
+                break
+            want += 1
+            seen.add(keyf(i))
+        if pulls > want:
+            return {"kind": "producer-not-retired", "event": 0,
+                    "detail": f"from_iter pulled {pulls} items through group_by, the stream of groups had ended after {want}"}
+        if pulls < want:
+            return {"kind": "producer-stopped-early", "event": 0, "detail": f"pulled {pulls}, want {want}"}
+        return None
+
     def oracle(self, case, lines, model_lines=None):
+        if case.suite == "groupby":
+            return self.groupby_oracle(case, lines)
         kind = case.meta.get("kind", "")
         if self._is_nested(case):
             return self.nested_oracle(case, lines)
@@ -474,6 +527,8 @@ class C16(Prop):
         return False
 
     def signature(self, case, failure):
+        if case.suite == "groupby":
+            return f"{failure['kind']}|groupby-iter"
         node, hs = case.field("pipe")[0], []
         while isinstance(node, list) and node:
             hs.append(node[0])
@@ -490,6 +545,17 @@ class C16(Prop):
 
     def shrink_candidates(self, case):
         cands = []
+        if case.suite == "groupby":
+            k = int(case.events[0][1])
+            for k2 in range(k):
+                c = case.copy()
+                c.events = [["iter", str(k2)]]
+                cands.append(c)
+            if case.has_field("skip") if hasattr(case, "has_field") else any(f == "skip" for f, _ in case.fields):
+                c = case.copy()
+                c.fields = [(f, v) for f, v in c.fields if f != "skip"]
+                cands.append(c)
+            return cands
         for c in tg.time_shrink(case) + tg.script_shrink(case):
             try:
                 if self._src(c) != self._src(case):
